@@ -113,6 +113,19 @@ func init() {
 		Models:      []string{"as C02"},
 	})
 	reg(&PropSpec{
+		ID: "C08", Prefix: "vh_C08_", MaxSteps: 20000000, Repeat: 60,
+		Quick:    Tier{Params: map[string]int{"kwpos": 2, "spellings": 2}},
+		Thorough: Tier{Params: map[string]int{"kwpos": 12, "spellings": 3}},
+		Bounds: []string{
+			"worlds: root definitions A (slot: reference to B, to C in a sub-directory document, to D in a third document, to a missing pointer, a missing document, a string / number / array / boolean target, or nothing), B (slot: C or nothing), a root response whose schema refers to A; C (slot: a pointer missing in its own document, D, back to B, or nothing)",
+			"loader failure bits for the two non-root documents and ContinueOnError are symbolic (decided lazily, per path, by the solver)",
+			"oracle: strict mode - error iff the unfolding of the root runs into a $ref that does not resolve to an object; continue mode - no error, and the output is bisimilar to the input where an unresolvable $ref must be the same text on both sides",
+		},
+		Outside:     []string{"null targets (not among the kinds the property lists)", "more documents and slots"},
+		Assumptions: []string{"as C02"},
+		Models:      []string{"as C02"},
+	})
+	reg(&PropSpec{
 		ID: "C11", Prefix: "vh_C11_",
 		Quick:    Tier{Params: map[string]int{"segs": 2, "seg_len": 2}},
 		Thorough: Tier{Params: map[string]int{"segs": 3, "seg_len": 2}},
